@@ -126,7 +126,7 @@ def pick_files(rng, n):
     for _ in range(n):
         if rng.random() < 0.45:
             f = rng.choice(["a1.out", "dwz-partial2-1", "dwz-partial3-1", "twocus", "dwz-partial",
-                            "dwz-partial4-1.o"])
+                            "dwz-partial4-1.o", "k1.o", "k2.o"])
         else:
             f = rng.choice(pool)
         if f not in fs:
@@ -244,7 +244,10 @@ def damage_a_file(rng, plan, files):
     if not files:
         return False
     f = rng.choice(files)
-    secs, data = elfsec.sections(os.path.join(gen.REPO, "tests", f))
+    path = os.path.join(gen.REPO, "tests", f)
+    if not os.path.exists(path):
+        path = os.path.join(HERE, "fixtures", "elf", f)
+    secs, data = elfsec.sections(path)
     cands = [n for n in (".debug_info", ".debug_info", ".debug_abbrev", ".debug_abbrev", ".debug_str",
                          ".debug_loc", ".debug_ranges", ".debug_aranges", ".symtab", ".debug_types")
              if n in secs]
